@@ -5,7 +5,8 @@ import json, os, shutil, subprocess, sys
 SRC = sys.argv[1] if len(sys.argv) > 1 else '/tmp/wt/out'
 WT = '/tmp/wt/confirm'
 DEST = '/verif/seeded'
-only = sys.argv[2:] 
+only = sys.argv[2:]
+OFFSET = int(os.environ.get('SEED_OFFSET', '0'))      # second wave: ids -3, -4
 
 def sh(cmd, cwd=None, env=None, timeout=900):
     p = subprocess.run(cmd, shell=True, cwd=cwd, env=env, capture_output=True, text=True, timeout=timeout)
@@ -26,7 +27,7 @@ try:
             demo = os.path.join(d, 'demo%d.py' % k)
             if not (os.path.exists(patch) and os.path.exists(demo)):
                 continue
-            sid = '%s-%d' % (pid, k)
+            sid = '%s-%d' % (pid, k + OFFSET)
             sh('git checkout -- . && git clean -fdq', cwd=WT)
             rc0, o0 = sh('/venv/bin/python %s' % demo, cwd=WT, env=env)
             rca, oa = sh('git apply %s' % patch, cwd=WT)
